@@ -48,6 +48,29 @@ def main():
             inner_in_repo = os.path.realpath(inner).startswith(repo + os.sep)
         except Exception:
             inner_in_repo = False
+        # The harness reads private attributes of the implementation's objects to compare them with the model; when
+        # such an attribute no longer exists the tie between model and code cannot be checked any more.
+        unobservable = None
+        if isinstance(e, AttributeError) and getattr(e, "obj", None) is not None:
+            try:
+                mod_file = getattr(sys.modules.get(type(e.obj).__module__), "__file__", "") or ""
+                if os.path.realpath(mod_file).startswith(repo + os.sep):
+                    unobservable = f"{type(e.obj).__module__}.{type(e.obj).__qualname__}.{getattr(e, 'name', '?')}"
+            except Exception:
+                unobservable = None
+        if unobservable and not inner_in_repo and not a.replay and "chk" in locals():
+            try:
+                chk.violation(
+                    f"obligation-broken: correspondence: the harness can no longer observe {unobservable} (the attribute the model is compared with is gone)",
+                    {"exception": repr(e)[:300], "traceback": traceback.format_exc()[-3000:],
+                     "note": "no failing input found; the run of the suite stopped here"},
+                    found_input=False,
+                )
+                chk.finish()
+            except SystemExit:
+                raise
+            except BaseException:
+                traceback.print_exc()
         if inner_in_repo and not a.replay and "chk" in locals():
             try:
                 where = f"{os.path.relpath(os.path.realpath(inner), repo)}:{frames[-1].lineno} in {frames[-1].name}"
